@@ -20,7 +20,7 @@ import Proofs.GoTiePrims
 import Proofs.GoTieSshRsa
 import Proofs.GoTieScryptCtor
 import Proofs.GoTieMarshal
-import Proofs.GoTieCtors
+import Proofs.GoTieSmall
 namespace AgeModel
 namespace Tie.C05
 open SpecConsts
